@@ -16,6 +16,8 @@ def gen_case(rng, i, nprocs, big=False, nops=None):
         hints.append("nc_var_align_size:%d" % rng.choice([1, 4, 8, 64, 512]))
     if rng.random() < 0.15:
         hints.append("nc_record_align_size:%d" % rng.choice([4, 8, 64, 512]))
+    if nprocs > 1 and rng.random() < 0.25:
+        hints.append("nc_num_aggrs_per_node:%d" % rng.randint(1, nprocs))     # intra-node write aggregation: another write path
     p = Prog(rng, nprocs, "@OUT@/c01.nc", info=";".join(hints) or None)
     p.create()
     p.random_schema(maxlen=(40 if big else 5), maxdims=(3 if big else 4))
